@@ -351,8 +351,8 @@ def run_mid_case(st, case, judge):
 
 
 # ------------------------------------------------------------------ hash-chain parser (HC levels 3-9) model vs code
-CHAIN_LEVELS = [3, 4, 5, 6, 7, 8, 9, 9, 9, 0, -3]     # 0 / negative = LZ4HC_CLEVEL_DEFAULT (9: pattern analysis on)
-CHAIN_CORR = ("Model.HcChainApi (LZ4HC_compress_hashChain + LZ4HC_InsertAndGetWiderMatch + one-shot HC entry points at levels 3-9, "
+CHAIN_LEVELS = [3, 4, 5, 6, 7, 8, 9, 9, 9, 0, -3, 10, 10, 11, 11, 12, 12, 12, 13, 100]     # 0 / negative = LZ4HC_CLEVEL_DEFAULT (9: pattern analysis on); > 12 = 12 (ultra)
+CHAIN_CORR = ("Model.HcChainApi + Model.HcOptApi (LZ4HC_compress_hashChain, LZ4HC_compress_optimal, LZ4HC_FindLongerMatch, LZ4HC_InsertAndGetWiderMatch + one-shot HC entry points at levels 3-12 mixed, "
               "LZ4_compress_HC_destSize) == the real functions over call histories on one LZ4_streamHC_t (return value, consumed, bytes, "
               "hashTable, chainTable, nextToUpdate, end index, dirty flag, favorDecSpeed after every call)")
 CHAIN_SEARCH_CORR = ("Model.HcChain.insertAndGetWiderMatch == LZ4HC_InsertAndGetWiderMatch called directly on a context with an external "
@@ -541,6 +541,24 @@ def chain_worker(st, ctx):
     st["chainlib"] = Lib(ctx["chainstate"]); st["chainraw"] = ctypes.CDLL(ctx["chainstate"]); st["chain"] = Oracle(name="chain")
     return st
 
+def optwrap_data(rng, n):
+    """aimed at the optimal parser's table limit (LZ4_OPT_NUM = 4096 positions) and `sufficient_len`: short matches followed,
+    a few bytes later, by matches of 60..4300 bytes (long block copied again), overlapping candidates, runs"""
+    out = bytearray(rng.randbytes(rng.choice([20, 200])))
+    A = rng.randbytes(rng.choice([70, 130, 600, 3000, 4090, 4095, 4096, 4100, 4300]))
+    out += A + rng.randbytes(rng.choice([5, 40]))
+    while len(out) < n:
+        r = rng.random()
+        if r < 0.35:
+            l = rng.choice([4, 5, 8, 18, 19, 36, 37, 60]); p = rng.randrange(0, len(out) - l); out += out[p:p + l]
+        elif r < 0.6:
+            k = rng.choice([64, 65, 128, 129, 2000, 4000, 4090, 4095, 4096, len(A)]); o = rng.randrange(0, max(1, len(A) - k + 1)); out += A[o:o + k]
+        elif r < 0.75:
+            out += bytes([rng.randrange(256)]) * rng.choice([5, 19, 40, 300, 4200])
+        else:
+            out += rng.randbytes(rng.choice([1, 2, 3, 12]))
+    return bytes(out[:n])
+
 def chain_history(st, rng, res, info, maxn, judge):
     """HC levels 3-9 (hash chain): fast-reset one-shot calls and destSize calls on one LZ4_streamHC_t (levels mixed, favorDecSpeed
     toggled, occasionally a context that has already indexed ~1 GB), model == code after every call;
@@ -561,6 +579,8 @@ def chain_history(st, rng, res, info, maxn, judge):
             if rng.random() < 0.3:
                 n = rng.randrange(0, min(maxn, 8000))
         src = gens.data(rng, kind, n)
+        if not big and rng.random() < 0.2:
+            n = rng.choice([5000, 9000, 14000]); src = optwrap_data(rng, n)
         if big and kind in gens.FAR_KINDS:
             src = src[:72000]
         n = len(src)
